@@ -192,9 +192,9 @@ DynamicBitset& DynamicBitset::set( size_t pos, bool value)
 {
 
    if (pos >= mData.size())
-      mData.resize( (pos + 1) * 1.5);
+      mData.resize( pos + pos / 2 + 1);
 
-   mData[ pos] = value;
+   mData.at( pos) = value;
 
    return *this;
 } // DynamicBitset::set
@@ -224,9 +224,9 @@ DynamicBitset& DynamicBitset::reset( size_t pos)
 {
 
    if (pos >= mData.size())
-      mData.resize( (pos + 1) * 1.5);
+      mData.resize( pos + pos / 2 + 1);
 
-   mData[ pos] = false;
+   mData.at( pos) = false;
 
    return *this;
 } // DynamicBitset::reset
@@ -256,9 +256,9 @@ DynamicBitset& DynamicBitset::flip( size_t pos)
 {
 
    if (pos >= mData.size())
-      mData.resize( (pos + 1) * 1.5);
+      mData.resize( pos + pos / 2 + 1);
 
-   mData[ pos] = !mData[ pos];
+   mData.at( pos) = !mData.at( pos);
 
    return *this;
 } // DynamicBitset::flip
@@ -369,9 +369,9 @@ DynamicBitset::reference DynamicBitset::operator []( size_t pos) noexcept( true)
 {
 
    if (pos >= mData.size())
-      mData.resize( (pos + 1) * 1.5);
+      mData.resize( pos + pos / 2 + 1);
 
-   return mData[ pos];
+   return mData.at( pos);
 } // DynamicBitset::operator []
 
 
